@@ -126,6 +126,7 @@ func (x *Exec) callStatic(st *State, fr *Frame, fn *ssa.Function, args []Value, 
 	c := x.contractOf(key)
 	x.callAsserts(st, fr, key, args, paramNames(fn.Signature, fn), pos)
 	if c != nil && !c.Inline {
+		x.pendingBinds = binds // captured variables of a closure under contract
 		return x.applyContract(st, fr, c, key, fn.Signature, fn, args, pos)
 	}
 	if m, ok := models[key]; ok {
@@ -389,6 +390,14 @@ func (x *Exec) applyContract(st *State, fr *Frame, c *FuncContract, key string, 
 		}
 	}
 	short := shortName(key)
+	if fn != nil && len(x.pendingBinds) > 0 {
+		for i, fv := range fn.FreeVars {
+			if i < len(x.pendingBinds) {
+				env.names[fv.Name()] = x.load(st, x.pendingBinds[i], pos)
+			}
+		}
+	}
+	x.pendingBinds = nil
 	for _, l := range c.Lets {
 		env.names[l.Name] = env.eval(l.E) // entry-state snapshots of the callee's contract
 	}
@@ -404,6 +413,27 @@ func (x *Exec) applyContract(st *State, fr *Frame, c *FuncContract, key string, 
 	var res []Value
 	for i := 0; i < sig.Results().Len(); i++ {
 		res = append(res, x.symbolic(st, sig.Results().At(i).Type(), "r."+short))
+	}
+	for rn, tn := range c.DynTypes {
+		idx := -1
+		for i := 0; i < sig.Results().Len(); i++ {
+			if sig.Results().At(i).Name() == rn || fmt.Sprintf("result%d", i) == rn || (rn == "result" && i == 0) {
+				idx = i
+			}
+		}
+		if idx < 0 || res[idx].K != KIface {
+			unsupported("dyntype %s: no such interface result in %s", rn, key)
+		}
+		ptr := strings.HasPrefix(tn, "*")
+		t := env.lookupType(strings.TrimPrefix(tn, "*"))
+		if t == nil {
+			unsupported("dyntype %s: unknown type %s", rn, tn)
+		}
+		if ptr {
+			t = types.NewPointer(t)
+		}
+		dv := x.symbolic(st, t, "dyn."+rn)
+		res[idx].Dyn = &dv
 	}
 	env2 := &SpecEnv{x: x, st: st, old: oldSt, names: env.names, pkg: env.pkg, results: res, sig: sig}
 	for _, e := range c.Ensures {
